@@ -70,6 +70,12 @@ def network_consistent(self):
             STATE["why"] = f"netconfig {netconfig.net_ip} not indexed under its network address"
             return False
         seen_ips[interface.ip] += 1
+    for netconfig in self.netconfigs.values():
+        # the two views of the mask of one netconfig agree at all times
+        prefix = ipaddress.ip_network(f"0.0.0.0/{netconfig.netmask}").prefixlen
+        if str(netconfig.mask_bit) != str(prefix):
+            STATE["why"] = f"netconfig {netconfig.net_ip}: netmask {netconfig.netmask} but mask_bit {netconfig.mask_bit}"
+            return False
     for ip, number in seen_ips.items():
         if number > 1 and ip not in STATE["exempt_ips"]:
             STATE["why"] = f"address {ip} used by {number} interfaces"
@@ -115,7 +121,7 @@ def run_case(case, verdict):
     topo = case["topo"]
     params = netgen.topology_params(topo)
     env = netgen.FakeEnv()
-    STATE["proxy_mode"], STATE["exempt_ips"] = False, set()
+    STATE["proxy_mode"], STATE["exempt_ips"], STATE["reattached"], STATE["renumbered"] = False, set(), False, False
     # statically configured addresses inside a DHCP range are a configuration the allocator is not told about
     static_in_range = set()
     for vm in topo["vms"].values():
@@ -177,6 +183,9 @@ def run_case(case, verdict):
             server_nic = network.nodes[server].params[server_role]
             interface = network.interfaces[f"{client}.{client_nic}"]
             target = network.interfaces[f"{server}.{server_nic}"].netconfig
+            if STATE.get("renumbered"):
+                # reattaching after a subnet was moved is outside the stated sequences (the nic parameters are only partly updated)
+                continue
             if interface.netconfig is target:
                 verdict.count("reattach_within_same_netconfig")
             free_before = sum(1 for taken in target.range.values() if taken is False)
@@ -190,11 +199,47 @@ def run_case(case, verdict):
                 verdict.count("observation_static_address_inside_dhcp_range_would_be_reallocated")
                 continue
             network.reattach_interface(env.vms[client], env.vms[server], client_role, server_role)
+            # (moving a subnet takes the parameters of its last interface as reference: not combined with reattached ones)
+            STATE["reattached"] = True
             if interface.netconfig is not target or target.interfaces.get(interface.ip) is not interface:
                 raise InvariantBroken(f"{client}.{client_nic} not attached to the netconfig of {server}.{server_nic}")
             if params.get(f"ip_{client_nic}_{client}") != interface.ip:
                 raise PostBroken("network parameters not updated with the reattached address")
             verdict.count("reattachments")
+        elif op[0] == "renumber":
+            _, subnet, new_net, new_prefix = op
+            old_network = ipaddress.ip_network(topo["subnets"][subnet]["net"])
+            netconfig = network.netconfigs.get(str(old_network.network_address))
+            if netconfig is None or not netconfig.interfaces:
+                continue
+            # the netconfig may have been renumbered before: offsets are taken from its current address
+            current = ipaddress.ip_network(f"{netconfig.net_ip}/{netconfig.netmask}", strict=False)
+            offsets = {key: int(ipaddress.ip_address(i.ip)) - int(current.network_address) for key, i in network.interfaces.items()
+                       if i.netconfig is netconfig}
+            target = ipaddress.ip_network(f"{new_net}/{new_prefix if new_prefix is not None else current.prefixlen}", strict=False)
+            if any(offset >= target.num_addresses - 1 for offset in offsets.values()) or \
+                    max(netconfig.range) >= target.num_addresses - 1 or STATE.get("reattached") or \
+                    any(target.overlaps(ipaddress.ip_network(f"{nc.net_ip}/{nc.netmask}", strict=False))
+                        for nc in network.netconfigs.values() if nc is not netconfig):
+                continue
+            new_mask = str(target.netmask) if new_prefix is not None else None
+            network.change_network_address(netconfig, str(target.network_address), new_mask)
+            verdict.count("renumberings")
+            STATE["renumbered"] = True
+            if new_prefix is not None and new_prefix != current.prefixlen:
+                verdict.count("renumberings_with_another_mask")
+            if netconfig.net_ip != str(target.network_address) or netconfig.netmask != str(target.netmask) or \
+                    str(netconfig.mask_bit) != str(target.prefixlen):
+                raise PostBroken(f"renumbered netconfig is {netconfig.net_ip}/{netconfig.netmask} (mask_bit {netconfig.mask_bit}), "
+                                 f"expected {target}")
+            for key, offset in offsets.items():
+                expected = str(target.network_address + offset)
+                if network.interfaces[key].ip != expected:
+                    raise PostBroken(f"{key} moved to {network.interfaces[key].ip}, expected {expected} (host offset {offset} in {target})")
+            # a later translation on the renumbered netconfig keeps the host offset under the new mask
+            nat = "198.18.0.0"
+            if target.prefixlen >= 15 and offsets:
+                netconfig.translate_address(str(target.network_address + max(offsets.values())), nat)
         elif op[0] == "translate":
             _, subnet, offset, nat = op
             network_ = ipaddress.ip_network(topo["subnets"][subnet]["net"])
@@ -230,13 +275,51 @@ def mask_roundtrip(verdict, rng, rounds):
                                   {"kind": "mask", "net": str(network)})
 
 
+def mask_sequence(verdict, rng, rounds):
+    """One netconfig object whose mask is read and set again and again through both of its views."""
+    for _ in range(rounds):
+        netconfig = VMNetconfig()
+        netconfig.net_ip = "10.0.0.0"
+        for step in range(rng.randint(2, 8)):
+            prefix = rng.randint(1, 32)
+            mask = str(ipaddress.ip_network(f"0.0.0.0/{prefix}").netmask)
+            if rng.random() < 0.5:
+                netconfig.netmask = mask
+                how = "netmask"
+            else:
+                netconfig.mask_bit = prefix
+                how = "mask_bit"
+            verdict.count("mask_sequence_steps")
+            # read in a random order, sometimes twice
+            reads = rng.sample(["bit", "mask", "bit", "mask"], rng.randint(2, 4))
+            for read in reads:
+                got = netconfig.mask_bit if read == "bit" else netconfig.netmask
+                want = str(prefix) if read == "bit" else mask
+                if str(got) != want:
+                    verdict.violation("mask_bit/netmask of one netconfig disagree after a change",
+                                      f"step {step}: set {how}={prefix if how == 'mask_bit' else mask}; read {read} -> {got}, expected {want}",
+                                      {"kind": "mask-sequence"})
+                    return
+
+
 def draw_case(rng):
     topo = netgen.draw_topology(rng, static_in_range=rng.random() < 0.15)
     vms = list(topo["vms"])
     ops = []
     for _ in range(rng.randint(0, 10)):
         kind = rng.random()
-        if kind < 0.35:
+        if kind < 0.12:
+            # move a whole subnet to another address, with the same, no or another mask
+            subnet = rng.randrange(len(topo["subnets"]))
+            prefix = ipaddress.ip_network(topo["subnets"][subnet]["net"]).prefixlen
+            new_prefix = rng.choice([None, prefix, max(8, prefix - rng.randint(1, 8)), min(30, prefix + rng.randint(1, 4))])
+            width = new_prefix if new_prefix is not None else prefix
+            base = (100 << 24) | (64 << 16) | rng.getrandbits(16) if width >= 10 else (rng.choice([11, 12, 13]) << 24)
+            # interfaces are moved under the old mask first: the new address is aligned to the larger of the two networks
+            align = min(width, prefix)
+            new_net = str(ipaddress.ip_address(base >> (32 - align) << (32 - align)))
+            ops.append(["renumber", subnet, new_net, new_prefix])
+        elif kind < 0.35:
             ops.append(["alloc", rng.randrange(len(topo["subnets"]))])
         elif kind < 0.45:
             ops.append(["drain", rng.randrange(len(topo["subnets"]))])
@@ -246,6 +329,8 @@ def draw_case(rng):
         else:
             nat = str(ipaddress.ip_address(rng.getrandbits(32)))
             ops.append(["translate", rng.randrange(len(topo["subnets"])), rng.getrandbits(24), nat])
+    if any(op[0] == "renumber" for op in ops):
+        topo["with_gateway"] = True
     return {"topo": topo, "ops": ops}
 
 
@@ -253,7 +338,8 @@ def main():
     args = parse_args()
     verdict = Verdict(PROP, args, rule=(
         "case = random topology (non-overlapping IPv4 subnets of prefix 8..30 with a DHCP offset range, 1..4 vms x 1..3 nics "
-        "with distinct static addresses) + up to 10 operations from allocate / drain range / reattach / translate; "
+        "with distinct static addresses) + up to 10 operations from allocate / drain range / reattach / translate / renumber a "
+        "subnet (same, no or another mask); plus mask round trips on fresh netconfigs and set/read sequences on one reused netconfig; "
         "non-trivial = >=2 vms or a reattachment; distinct by topology hash x operation sequence"))
     verdict.assumptions = ["plain reattachment only (proxy-ARP mode deliberately duplicates an address)",
                            "static addresses configured inside a DHCP range are an input precondition: generated, counted, not judged",
@@ -276,11 +362,12 @@ def main():
                      sample=case if nontrivial and len(case["ops"]) >= 3 and len(verdict.samples) < 2 else None)
     if not args.replay:
         mask_roundtrip(verdict, rng, 30 if args.tier == "quick" else 600)
+        mask_sequence(verdict, rng, 2000 if args.tier == "quick" else 40000)
     for key, value in EVALS.items():
         verdict.count("contract_evals_" + key, value)
     sys.exit(verdict.finish(min_counters=[] if args.replay else [
         "contract_evals_invariant", "contract_evals_allocate_post", "contract_evals_translate_post",
-        "reattachments", "exhaustions_observed", "mask_roundtrips"]))
+        "reattachments", "exhaustions_observed", "mask_roundtrips", "mask_sequence_steps", "renumberings_with_another_mask"]))
 
 
 if __name__ == "__main__":
